@@ -256,7 +256,12 @@ func runConcCore(t *testing.T, p *Plan, ns string) *Outcome {
 		ops := make([]*opState, len(p.Ops))
 		next := make([]int, nclients) // next op index per client
 		perClient := make([][]int, nclients)
+		var markers []int // probes issued one after the other once the concurrent phase is over
 		for i, op := range p.Ops {
+			if op.Kind == "marker" {
+				markers = append(markers, i)
+				continue
+			}
 			perClient[op.C%nclients] = append(perClient[op.C%nclients], i)
 		}
 		taskOp := map[*Task]int{}
@@ -351,6 +356,12 @@ func runConcCore(t *testing.T, p *Plan, ns string) *Outcome {
 				tornDetail = fmt.Sprintf("%q changed the dataset in %d separate steps: a command of another client scheduled between them observes a half-applied command", p.Ops[i].Args, n)
 			}
 		}
+		s.DrainAll(2000)
+		for _, i := range markers {
+			r := cs[p.Ops[i].C%nclients].DoSync(p.Ops[i].Args...)
+			conc.results[i] = canonResult(p.Ops[i].Args, r)
+			ops[i] = &opState{done: true}
+		}
 		for i, st := range ops {
 			if (st == nil || !st.done) && p.Profile == "conn" && panicSig == "" {
 				panicSig = ns + "/never-answered/" + strings.ToUpper(p.Ops[i].Args[0])
@@ -406,7 +417,7 @@ func runConcCore(t *testing.T, p *Plan, ns string) *Outcome {
 					continue
 				}
 				ex := c05Exec{results: make([]string, len(p.Ops)), steps: make([]int, len(p.Ops))}
-				for _, i := range ord {
+				for _, i := range append(append([]int{}, ord...), markers...) {
 					before := s.ksCalls.Load()
 					r := cs2[p.Ops[i].C%nclients].DoSync(p.Ops[i].Args...)
 					ex.steps[i] = int(s.ksCalls.Load() - before)
@@ -426,7 +437,7 @@ func runConcCore(t *testing.T, p *Plan, ns string) *Outcome {
 			matched = true
 			return
 		}
-		if p.Profile == "conn" && hasCmd(p.Ops, "SWAPDB") && Avoiding(p, ns+"/conn-nonserializable/SWAPDB") {
+		if p.Profile == "conn" && hasCmd(p.Ops, "SWAPDB") && swapdbExposed(p.Ops) && Avoiding(p, ns+"/conn-nonserializable/SWAPDB") {
 			// open finding: SWAPDB is not atomic. The plan was still run for its liveness content (every command
 			// answered, no deadlock, no panic); the serial-order comparison is skipped.
 			o.Skipped++
